@@ -257,6 +257,38 @@ func runC04(p *core.Program, r *core.Report) {
 			}
 		}
 	}
+	// get and delete are called on children without a nil test at the call: the receiver
+	// is dereferenced only where it is known to be non-nil
+	for _, fn := range []*ssa.Function{nget, ndelete} {
+		if fn == nil {
+			continue
+		}
+		self := ssa.Value(fn.Params[0])
+		if fn == nget {
+			self = descentNode(fn)
+		}
+		x := newPathCtx(p)
+		bad := 0
+		var at ssa.Instruction
+		for _, in := range path.Instrs(fn) {
+			fa, ok := in.(*ssa.FieldAddr)
+			if !ok || fa.X != self {
+				continue
+			}
+			nonNil := guardedBy(fn, fa.Block(), func(cd path.Cond, truth bool) bool {
+				return normCmp(cd.Op, truth) == "!=" && cd.X == self && path.IsNil(cd.Y)
+			}) || hasFact(edgeFacts(x, fn, fa.Block()), "n", "!=", "zero")
+			if !nonNil {
+				bad++
+				at = in
+			}
+		}
+		pos := c.fpos(fn)
+		if at != nil {
+			pos = p.InstrPos(at)
+		}
+		c.ob("PT3", p.FuncName(fn), "receiver dereferenced only when non-nil", pos, bad == 0, "a field of n is read on a path where n is not known to be non-nil: the descent reaches nil children, so an absent key panics instead of being reported")
+	}
 	// hit of get returns the node's item; miss returns the not-found error
 	if nget != nil {
 		fn := nget
